@@ -2289,6 +2289,14 @@ class RemoteRepository(_mod_repository.Repository, _RpcHelper, lock._RelockDebug
         except transport_errors.UnknownSmartMethod:
             self._client._medium._remember_remote_is_before((1, 17))
             return self._get_rev_id_for_revno_vfs(revno, known_pair)
+        except errors.NoSuchRevision as e:
+            # The server opens this repository without its fallbacks.  A
+            # stacked repository need not hold the known revision itself (a
+            # freshly stacked branch holds nothing yet): its history is then
+            # incomplete from the known pair onwards.
+            if not self._fallback_repositories or e.revision != known_pair[1]:
+                raise
+            response = (b"history-incomplete", known_pair[0], known_pair[1])
         except UnknownErrorFromSmartServer as e:
             # Older versions of Bazaar/Breezy (<< 3.0.0) would raise a
             # ValueError instead of returning revno-outofbounds
